@@ -30,7 +30,7 @@ class C17(ApiProp):
                 polls = []
                 for pk in (0, 1, 2):
                     for cap in (0, 1, 2, 3):
-                        for un in (0, 1):
+                        for un in (0, 1, 2, 3):     # 2, 3: uninit with 1 / 2 initialised bytes inside the tail
                             polls.append(("PollRead", tuple([35] * pk), cap, un))
                 for n in range(0, size + 2):
                     polls.append(("PollWrite", tuple(100 + i for i in range(n))))
@@ -59,7 +59,7 @@ class C17(ApiProp):
                 l, w = b.ln(), b.wl()
                 if k < 0.3:
                     cap = rng.choice([0, 1, 2, l, max(l - 1, 0), l + 1, 8])
-                    op = ("PollRead", tuple(rng.randrange(256) for _ in range(rng.choice([0, 0, 1, 3]))), cap, rng.choice([0, 1]))
+                    op = ("PollRead", tuple(rng.randrange(256) for _ in range(rng.choice([0, 0, 1, 3]))), cap, rng.choice([0, 0, 1, 1, 2, 3, 5]))
                     b.read(min(cap, l))
                 elif k < 0.55:
                     n = rng.choice([0, 1, w, max(w - 1, 0), w + 1])
